@@ -207,6 +207,7 @@ impl<'a> Multiboot2Header<'a> {
 
 //@extract multiboot2-header/src/header.rs :: impl<'a> Multiboot2Header<'a> :: fn get_tag
 //@  ret r
+//@  stubonloss
 //@  closure 0: |tag: &&'a DynSizedStructure<HeaderTagHeader>| -> (b: bool) ensures b == (dyn_hdr(*tag).typ as u16 == T::ID as u16)
 //@  closure 1: |tag: &'a DynSizedStructure<HeaderTagHeader>| -> (c: &'a T) requires dyn_wf(tag) ensures cast_post(tag, c)
 //@  rewrite /self\s*\.iter\(\)\s*\.find\(/ => /tagiter_find_owned(self.iter(), /
